@@ -14,17 +14,17 @@ Proof.
   fold (toks l). destruct p; cbn [ptok_terms length]; lia.
 Qed.
 
-Lemma lex_stream_end fuel a f c i :
-  lex_stream (S fuel) (mkLexer [] [] a f c i) = Lexed [].
+Lemma lex_stream_end fuel a f c i g :
+  lex_stream (S fuel) (mkLx [] [] a f c i g) = Lexed [].
 Proof. reflexivity. Qed.
 
-(* the lexer is right on the whole fragment, `for name ; do` included *)
+(* the lexer is right on the whole fragment *)
 Theorem lexer_recovers_terms : forall p : program,
   wf_words p = true -> faithful p = true -> shell_lex (tokens p) = Lexed (terms p).
 Proof.
   intros p Hwf Hfa.
   destruct lexer_reads_tree as (_ & _ & _ & _ & _ & _ & _ & _ & Hcl).
-  destruct (Hcl p (-1)%Z (-1)%Z Hwf Hfa safe_m1) as (a' & f' & c' & _ & _ & Hrun).
+  destruct (Hcl p (-1)%Z (-1)%Z Hwf Hfa safe_m1) as (a' & f' & c' & g' & _ & _ & Hrun).
   specialize (Hrun []). rewrite app_nil_r in Hrun.
   unfold shell_lex, new_lexer, tokens. fold (toks (print_clist p)).
   pose proof (length_tm_toks (print_clist p)) as Hlen.
@@ -33,67 +33,18 @@ Proof.
   rewrite (Hrun _). rewrite lex_stream_end. cbn [prepend]. rewrite app_nil_r. reflexivity.
 Qed.
 
+(* the grammar covers the whole fragment *)
 Theorem terms_derivable : forall p : program,
-  wf_words p = true -> nosemi_clist p = true -> derives start_symbol (terms p).
+  wf_words p = true -> derives start_symbol (terms p).
 Proof.
-  intros p Hwf Hns.
+  intros p Hwf.
   destruct ast_in_grammar as (_ & _ & _ & _ & _ & _ & _ & _ & Hcl).
-  apply P1_start. apply P2_program. apply D_clist_of_term. apply Hcl; assumption.
+  apply D_start_1. apply D_program_1. apply D_clist_of_term. apply Hcl; assumption.
 Qed.
 
 Theorem posix_accepted : forall p : program,
-  wf_words p = true -> supported p = true ->
+  wf_words_posix p = true -> faithful p = true ->
   shell_lex (tokens p) = Lexed (terms p) /\ derives start_symbol (terms p).
 Proof.
-  intros p Hwf Hsup. unfold supported in Hsup. apply andb_true_iff in Hsup. destruct Hsup as [Hfa Hns].
-  split; [apply lexer_recovers_terms | apply terms_derivable]; assumption.
+  intros p Hwf Hfa. split; [apply lexer_recovers_terms | apply terms_derivable]; assumption.
 Qed.
-
-(* wf_words is the stricter of the two word disciplines *)
-Lemma name_ok_later w : name_ok w = true -> later_name_ok w = true.
-Proof.
-  intro H. destruct (name_ok_inv w H) as (Ha & _ & Hs). unfold later_name_ok.
-  rewrite Ha, assignment_like_shaped, Hs. reflexivity.
-Qed.
-
-Lemma simple_ok_posix_of assigns items : simple_ok assigns items = true -> simple_ok_posix assigns items = true.
-Proof.
-  unfold simple_ok, simple_ok_posix. intro H.
-  apply andb_true_iff in H. destruct H as [H Hne]. apply andb_true_iff in H. destruct H as [Ha Hi].
-  rewrite Ha, Hne. cbn [andb]. rewrite andb_true_r.
-  destruct items as [| [w | r] items]; try exact Hi.
-  apply andb_true_iff in Hi. destruct Hi as [Hw Hr]. rewrite Hr, andb_true_r.
-  destruct assigns; [exact Hw | apply name_ok_later; exact Hw].
-Qed.
-
-Ltac wfp_step :=
-  intros; cbn [wf_cmd wf_compound wf_else wf_items wf_body wf_pipe wf_andor wf_seq wf_clist
-               wfp_cmd wfp_compound wfp_else wfp_items wfp_body wfp_pipe wfp_andor wfp_seq wfp_clist] in *;
-  repeat match goal with
-  | H : (_ && _)%bool = true |- _ => apply andb_true_iff in H; destruct H
-  end;
-  repeat match goal with
-  | IH : ?a = true -> ?b = true, H : ?a = true |- _ => specialize (IH H)
-  end;
-  repeat match goal with
-  | H : ?x = true |- context [?x] => rewrite H
-  end;
-  reflexivity.
-
-Theorem wf_words_posix_of :
-  (forall c, wf_cmd c = true -> wfp_cmd c = true) /\
-  (forall k, wf_compound k = true -> wfp_compound k = true) /\
-  (forall e, wf_else e = true -> wfp_else e = true) /\
-  (forall i, wf_items i = true -> wfp_items i = true) /\
-  (forall b, wf_body b = true -> wfp_body b = true) /\
-  (forall p, wf_pipe p = true -> wfp_pipe p = true) /\
-  (forall a, wf_andor a = true -> wfp_andor a = true) /\
-  (forall q, wf_seq q = true -> wfp_seq q = true) /\
-  (forall l, wf_clist l = true -> wfp_clist l = true).
-Proof.
-  apply posix_mutind; try solve [wfp_step].
-  intros assigns items H. cbn [wf_cmd wfp_cmd] in *. apply simple_ok_posix_of. exact H.
-Qed.
-
-Corollary wf_words_is_stricter : forall p : program, wf_words p = true -> wf_words_posix p = true.
-Proof. destruct wf_words_posix_of as (_ & _ & _ & _ & _ & _ & _ & _ & H). exact H. Qed.
